@@ -262,9 +262,14 @@ def _kernel_bound(ck: Check, repo: Repo) -> None:
     al = repo.fn("agilerl.modules.cnn", "EvolvableCNN.add_layer")
     acfg = CFG(al.node)
     atb = TermBuilder(repo, al, cfg=acfg, depth=0)
+    # role: the kernel draw is the randint whose upper bound derives from calc_max_kernel_sizes(...) or whose result is handed to
+    # self.mut_kernel_size.add_layer(...) (the stride draw is neither)
+    kdraw_names = {x.id for c in calls_in(al.node) if call_name(c) == "self.mut_kernel_size.add_layer" for a in c.args for x in ast.walk(a) if isinstance(x, ast.Name)}
     for c in [c for c in calls_in(al.node) if call_name(c) == "np.random.randint"]:
         n = acfg.node_of(c)
-        if "max_kernels" in ast.unparse(c):
+        feeds_kernel = any(c is acfg.value_of_def(d, k) for k in kdraw_names for d in acfg.live_nodes() if any(kk == k for kk, _ in acfg.defs_at(d))) or \
+            any(c is x for kc in calls_in(al.node) if call_name(kc) == "self.mut_kernel_size.add_layer" for a in kc.args for x in ast.walk(a))
+        if len(c.args) > 1 and ("calc_max_kernel_sizes" in atb.term(c.args[1], n).key() or feeds_kernel):
             t = atb.term(c.args[1], n) - Poly.const(1)
             a = single_atom(atb, t)
             ck.ob("C03.6", al, c, a is not None and a.kind == "idx" and "calc_max_kernel_sizes" in a.key and a.name.replace(" ", "") in ("-1", "-1*1"),
@@ -463,7 +468,18 @@ def _context(ck: Check, repo: Repo) -> None:
         atoms = [(ast.unparse(a), pol) for g, pol, _ in cfg.guards_at(rec[0]) for a, pol in conjuncts(g, pol)]
         ck.ob("C03.3", ex, rec[0].ast, ("self.module._mutation_depth == 0", True) in atoms, "only after the outermost mutation method returned (nested fallbacks do not rebuild twice)",
               detail=f"guards: {atoms}")
-        ck.ob("C03.3", ex, rec[0].ast, ("final_mutation_attr is not None", True) in atoms, "only when a mutation was really applied")
+        # role: "the applied mutation" is whatever local holds the result of self._resolve_final_mutation_attr() (found by its
+        # reaching definitions at the test, not by its spelling)
+        applied = False
+        for g, pol, tnode in cfg.guards_at(rec[0]):
+            for a, apol in conjuncts(g, pol):
+                if apol and isinstance(a, ast.Compare) and len(a.ops) == 1 and isinstance(a.ops[0], ast.IsNot) and isinstance(a.left, ast.Name) \
+                        and isinstance(a.comparators[0], ast.Constant) and a.comparators[0].value is None:
+                    dfs = cfg.defs_reaching(tnode, a.left.id)
+                    vals = [cfg.value_of_def(d, a.left.id) for d in dfs]
+                    if vals and all(isinstance(v, ast.Call) and call_name(v) == "self._resolve_final_mutation_attr" for v in vals):
+                        applied = True
+        ck.ob("C03.3", ex, rec[0].ast, applied, "only when a mutation was really applied")
     dec = [n for n in cfg.live_nodes() if n.kind == "stmt" and isinstance(n.ast, ast.AugAssign) and dotted(n.ast.target) == "self.module._mutation_depth" and isinstance(n.ast.op, ast.Sub)]
     ck.ob("C03.3", ex, dec[0].ast if dec else ex.node, len(dec) == 1 and cfg.postdominates(dec[0], cfg.entry), "the nesting depth is decremented on every exit")
     en = repo.fn("agilerl.modules.base", "MutationContext.__enter__")
@@ -600,6 +616,15 @@ def _canon(e: ast.AST, pmap: Dict[str, str], fn: Optional[Fn] = None, depth: int
     """Canonical text of e (self.a and the constructor parameter stored in a both become @a); None when a name in it cannot be followed."""
     defs = _local_defs(fn) if fn is not None else {}
     failed = []
+    import copy
+    e = copy.deepcopy(e)
+    # comprehension variables are bound inside e: canonical positional names, so that their spelling does not matter
+    bound: Dict[str, str] = {}
+    for x in ast.walk(e):
+        if isinstance(x, ast.comprehension):
+            for y in ast.walk(x.target):
+                if isinstance(y, ast.Name):
+                    bound.setdefault(y.id, f"%{len(bound)}")
 
     class T(ast.NodeTransformer):
         def visit_Attribute(self, n):
@@ -608,6 +633,8 @@ def _canon(e: ast.AST, pmap: Dict[str, str], fn: Optional[Fn] = None, depth: int
             return self.generic_visit(n)
 
         def visit_Name(self, n):
+            if n.id in bound:
+                return ast.Name(id=bound[n.id], ctx=ast.Load())
             d = defs.get(n.id, [])
             if n.id in pmap and not d:
                 return ast.Name(id="@" + pmap[n.id], ctx=ast.Load())
@@ -620,8 +647,7 @@ def _canon(e: ast.AST, pmap: Dict[str, str], fn: Optional[Fn] = None, depth: int
             if d:
                 failed.append(n.id)
             return n
-    import copy
-    out = ast.unparse(T().visit(copy.deepcopy(e)))
+    out = ast.unparse(T().visit(e))
     return None if failed else out
 
 
@@ -647,7 +673,12 @@ def _build_agreement(ck: Check, repo: Repo, rule: str = "C03.9") -> None:
                         if src is not None:
                             pmap[src] = t[5:]
             isites = [(a, c) for a, c, st in _builder_sites(init) if len(c.keywords) >= 2 or call_name(c).startswith("self.")]
-            rsites = [(a, c) for a, c, st in _builder_sites(rec) if call_name(c).split(".")[-1] != "preserve_parameters" and not dotted(c.func).endswith("preserve_params_fn")]
+            # locals of the rebuild that merely alias a preserve function (`f = A.preserve_parameters if ... else B.shrink_preserve_parameters`)
+            # are recognised by what they are bound to, not by their name
+            aliases = {t.id for a in walk_no_nested(rec.node) if isinstance(a, ast.Assign) for t in a.targets if isinstance(t, ast.Name)
+                       and any(isinstance(x, ast.Attribute) and x.attr in ("preserve_parameters", "shrink_preserve_parameters") for x in ast.walk(a.value))}
+            rsites = [(a, c) for a, c, st in _builder_sites(rec) if call_name(c).split(".")[-1] != "preserve_parameters"
+                      and not (isinstance(c.func, ast.Name) and c.func.id in aliases)]
             for attr, ic in isites:
                 cands = [rc for a2, rc in rsites if a2 == attr and call_name(rc) == call_name(ic)]
                 if not cands:
@@ -738,4 +769,10 @@ VARIANTS = [
     ("encoder-rebuild-renamed-local-ok", _NB, "            init_dict = self.encoder.init_dict\n            init_dict[\"num_outputs\"] = self.latent_dim\n            encoder = self.encoder_cls(**init_dict)", "            enc_kwargs = self.encoder.init_dict\n            enc_kwargs[\"num_outputs\"] = self.latent_dim\n            encoder = self.encoder_cls(**enc_kwargs)", "silent", None),
     ("mlp-rebuild-kw-order-ok", _MLP, "            new_gelu=self.new_gelu,\n            device=self.device,\n            name=self.name,\n        )\n\n        self.model = EvolvableModule", "            device=self.device,\n            new_gelu=self.new_gelu,\n            name=self.name,\n        )\n\n        self.model = EvolvableModule", "silent", None),
     ("mlp-numoutputs-misbound", _MLP, "        self.num_outputs = num_outputs\n", "        self.num_outputs = num_inputs\n", "fire", "C03.4"),
+]
+VARIANTS += [
+    # roles found by data flow (the local holding the resolved mutation; the draw handed to the kernel helper), not by the locals' names
+    ("recreate-guard-on-other-value", _MB, "            if final_mutation_attr is not None:\n", "            if self.method_name is not None:\n", "fire", "C03.3"),
+    ("cnn-new-layer-kernel-over-max", _CNN, "k_size = np.random.randint(2, max_kernels[-1] + 1)", "k_size = np.random.randint(2, max_kernels[-1] + 2)", "fire", "C03.6"),
+    ("cnn-new-layer-kernel-unrelated-bound", _CNN, "k_size = np.random.randint(2, max_kernels[-1] + 1)", "k_size = np.random.randint(2, self.stride_size[-1] + 1)", "fire", "C03.6"),
 ]
